@@ -367,8 +367,8 @@ def main():
                 "and out-of-fragment forms dyn / fn / <T as X>::Y / && ) are parsed AND printed back (Type::full, re-lexed) by /repo's own code (proc-macro `pd` including derive/src/parse.rs by path) and by the extracted Coq model; results compared; a supported type must print back as the tokens written; "
                 "(2) generated DECLARATIONS (struct and field visibility, generic type / lifetime / const parameters with inline bounds, where clauses and defaults, doc comments and foreign attributes, raw identifier fields, "
                 "every difference attribute in several spellings, expose, enums with unit / tuple / struct variants) are compiled against /repo and each runs a round-trip + frame + diff_ref + self-diff test; "
-                "(3) each known-bad construct is compiled on its own. The compile step is a TEST, not a proof. non-trivial = distinct declarations")
-    res.assumptions.append("C17 is partial: the theorem covers the field-type parser of the macro; that rustc accepts the expansion is tested on generated declarations, not proved")
+                "(3) each known-bad construct is compiled on its own; (4) the item headers, enum bodies and type aliases of the REAL expansion of every declaration of (2) (proc-macro pd calls derive_struct_diff_struct / derive_struct_diff_enum of /repo) are compared token by token with the extracted Coq model of the templates, under several feature sets of the derive crate. The compile step is a TEST, not a proof. non-trivial = distinct declarations")
+    res.assumptions.append("C17 is partial: the theorems cover the macro's front end (type parser and printer, declaration parser, attribute readers, used-parameter helpers) and the header / type-definition layer of its templates; the function bodies of the expansion as text, and that rustc accepts the whole expansion, are tested on generated declarations, not proved")
     return finish(res, None)
 
 if __name__ == '__main__':
